@@ -9,6 +9,7 @@ import (
 	"github.com/google/pprof/profile"
 	"github.com/google/pprof/xverif/gen"
 	"github.com/google/pprof/xverif/model"
+	"github.com/google/pprof/xverif/pp"
 	"github.com/google/pprof/xverif/vk"
 	"pgregory.net/rapid"
 )
@@ -474,4 +475,113 @@ func checkHeader(e *vk.Errs, in []*profile.Profile, out *profile.Profile) {
 func TestPropMerge(t *testing.T) {
 	vk.Main(t, vk.Spec[mergeCase]{ID: "C03", Facet: "merge", Quick: 12000, Thorough: 60000, Gen: genMerge, Check: checkMerge,
 		Rule: "1..4 profiles assembled from one drawn universe (colliding ids, same binary at different ASLR starts, near-duplicate functions/lines/locations/mappings/labels differing in exactly one attribute at every inline depth, unused entities, zero/negative/cancelling values from {0,±1,±2}); oracle: id-free canonical multiset conservation (coarse identity), uniqueness (fine identity), no extras, header rules, order independence, Compact idempotence, inputs untouched and unaliased; non-trivial = >=2 inputs sharing >=1 canonical stack and >=1 near-duplicate pair present"})
+}
+
+// ---- facet driver: the same merge as the command line performs it (pprof a b c ...) ----
+
+type drvCase struct {
+	M    *mergeCase
+	Big  bool // sample values beyond 2^53
+	Many int  // 0, or the number of sources (129, 130, 257): the list is the case's profiles repeated
+}
+
+func genDrv(t *rapid.T) *drvCase {
+	m := genMerge(t)
+	return &drvCase{M: m, Big: rapid.Bool().Draw(t, "big"), Many: rapid.SampledFrom([]int{0, 0, 0, 0, 0, 129, 130, 257}).Draw(t, "many")}
+}
+
+func checkDrv(c *drvCase, o *vk.Obs) []string {
+	var e vk.Errs
+	in := build(c.M)
+	if len(in) < 2 || c.M.Incompat != 0 {
+		return nil
+	}
+	for i, p := range in {
+		// pruning (C11) and symbolization are not the subject here; every source gets its own comment
+		p.DropFrames, p.KeepFrames = fmt.Sprintf("dropme%d", i), ""
+		p.Comments = append(p.Comments, fmt.Sprintf("source-%d", i))
+		if len(p.Mapping) == 0 {
+			// the driver gives mapping-less profiles a mapping of its own
+			return nil
+		}
+		for _, l := range p.Location {
+			if l.Mapping == nil {
+				return nil
+			}
+		}
+		if c.Big && c.Many == 0 {
+			for _, s := range p.Sample {
+				for j, v := range s.Value {
+					switch {
+					case v > 0:
+						s.Value[j] = v + 1<<53
+					case v < 0:
+						s.Value[j] = v - 1<<53
+					}
+				}
+			}
+		}
+	}
+	o.LabelIf(c.Big && c.Many == 0, "values-beyond-2^53")
+	list := in
+	if c.Many > 0 {
+		list = nil
+		for i := 0; i < c.Many; i++ {
+			list = append(list, in[i%len(in)])
+		}
+		o.Label("crosses-128-sources")
+	}
+	srcs := map[string]*pp.Source{}
+	var args []string
+	for i, p := range list {
+		n := fmt.Sprintf("s%03d", i)
+		srcs[n] = &pp.Source{Prof: p}
+		args = append(args, n)
+	}
+	res := pp.Run(pp.Req{Flags: map[string]string{"proto": "true", "output": "out"}, Args: args, Sources: srcs})
+	if res.Panic != "" {
+		return []string{"pprof panicked: " + res.Panic}
+	}
+	if res.Err != nil {
+		e.Addf("pprof -proto of %d compatible sources failed: %v", len(list), res.Err)
+		return e
+	}
+	out, err := profile.ParseData([]byte(res.Out("out")))
+	if err != nil {
+		return []string{"-proto output does not parse: " + err.Error()}
+	}
+	o.NonTrivial = true
+	// the output went through the encoder: compare with the sources in encoded form too (a numeric label
+	// value 0 without unit cannot be represented, C01)
+	var enc []*profile.Profile
+	for _, p := range list {
+		enc = append(enc, p.Copy())
+	}
+	want := sumCanon(enc, true)
+	got := model.CanonOf(out, true).DropZero()
+	if !want.Equal(got) {
+		e.Addf("pprof of %d sources is not the element-wise sum of the sources per stack and label set:\n%s", len(list), want.Diff(got))
+	}
+	var comments []string
+	seen := map[string]bool{}
+	for _, p := range list {
+		for _, cm := range p.Comments {
+			if !seen[cm] {
+				seen[cm] = true
+				comments = append(comments, cm)
+			}
+		}
+	}
+	if fmt.Sprintf("%q", comments) != fmt.Sprintf("%q", out.Comments) {
+		e.Addf("comments: want the ordered de-duplicated union %.300q, got %.300q", comments, out.Comments)
+	}
+	if out.DropFrames != list[0].DropFrames {
+		e.Addf("drop_frames %q does not come from the first source (%q)", out.DropFrames, list[0].DropFrames)
+	}
+	return e
+}
+
+func TestPropDriver(t *testing.T) {
+	vk.Main(t, vk.Spec[drvCase]{ID: "C03", Facet: "driver", Quick: 1500, Thorough: 8000, Gen: genDrv, Check: checkDrv, Journal: true,
+		Rule: "the merge generator's 2..4 compatible profiles given to the driver as sources (pprof a b c -proto), half of the cases with sample values beyond 2^53, some with the list repeated to 129 / 130 / 257 sources (the driver merges in chunks of 128); oracle: per stack and label set the element-wise sum of the sources, comments the ordered de-duplicated union, drop_frames of the first source; every case with at least two sources is non-trivial"})
 }
